@@ -265,7 +265,7 @@ pub struct Family {
 /// The slots the renamed trees need. The upper end is what the `grow` renaming can reach: it un-shares three entries,
 /// and the file the tree is read from cannot have more than 65535 slots itself.
 pub fn window(quick: bool) -> std::ops::RangeInclusive<u32> {
-	if quick { 65_529..=65_538 } else { 65_515..=65_538 }
+	if quick { 65_531..=65_538 } else { 65_515..=65_538 }
 }
 
 /// The space: every tail x the renamings of the tier (x every target of `window`, by the caller).
@@ -274,10 +274,10 @@ pub fn families(quick: bool) -> Vec<(Tail, Mode)> {
 	for (ti, tail) in tails().into_iter().enumerate() {
 		for mode in [Mode::Grow, Mode::Owner] {
 			// the second renaming needs member references: not for tails in a field. Quick tier: on every tail whose last
-			// entries include a two-slot constant and on every third other tail (stated in bounds)
+			// entries include a two-slot constant and on every sixth other tail (stated in bounds)
 			if mode == Mode::Owner {
 				let two_slot = tail.last_slots == 2 || matches!(&tail.what, What::BootstrapArgument(SConst::Long(_) | SConst::Double(_)));
-				if tail.site == "field-constant" || (quick && !two_slot && ti % 3 != 0) {
+				if tail.site == "field-constant" || (quick && !two_slot && ti % 6 != 0) {
 					continue;
 				}
 			}
